@@ -1264,8 +1264,14 @@ func c01(r *core.Run) {
 		all := []string{"OK", "Canceled", "Unknown", "InvalidArgument", "DeadlineExceeded", "NotFound", "AlreadyExists", "PermissionDenied",
 			"ResourceExhausted", "FailedPrecondition", "Aborted", "OutOfRange", "Unimplemented", "Internal", "Unavailable", "DataLoss", "Unauthenticated"}
 		o.Site(len(all)+1, core.FuncName(f))
+		domain := map[string]bool{}
+		for _, n := range all {
+			if k, ok := importedConst(pk.Types, "google.golang.org/grpc/codes", n); ok {
+				domain[typesConstToken(k)] = true
+			}
+		}
 		check := func(label, tok string, want string) {
-			e := &boolEval{fn: f, subject: isCode, token: tokenOf, choice: tok}
+			e := &boolEval{fn: f, subject: isCode, token: tokenOf, choice: tok, domain: domain}
 			e.run()
 			if e.aborted || len(e.forks) > 0 {
 				o.Unres("codes.Acceptable is not a finite table over status.Code(err): undecided conditions %v", e.forkList())
